@@ -45,7 +45,7 @@ def children_of(par):
 
 def random_tree(rng, n, kind=None):
     """Random tree shape with n nodes (pre-order numbered parent array)."""
-    kinds = ("uniform", "chain", "star", "caterpillar", "broom", "binary", "lastchild", "deep")
+    kinds = ("uniform", "chain", "star", "caterpillar", "broom", "binary", "lastchild", "deep", "spinebush")
     kind = kind or rng.choice(kinds)
     if n == 1:
         return (None,), kind
@@ -78,6 +78,17 @@ def random_tree(rng, n, kind=None):
         # "last child under a non-last parent under a last grandparent" patterns
         for i in range(1, n):
             raw.append(max(0, i - 1 - rng.randrange(3)))
+    elif kind == "spinebush":
+        # a long unary spine (depth beyond typical recursion/"fast path" thresholds) ending in a bushy subtree,
+        # with a few side twigs along the spine
+        d = max(1, min(n - 1, int(n * rng.uniform(0.5, 0.85))))
+        for i in range(1, n):
+            if i <= d:
+                raw.append(i - 1)
+            elif rng.random() < 0.75:
+                raw.append(rng.randrange(d, i))  # inside the bush at the end of the spine
+            else:
+                raw.append(rng.randrange(0, d))  # a twig somewhere on the spine
     else:  # deep: mostly chain with occasional side branches
         for i in range(1, n):
             raw.append(i - 1 if rng.random() < 0.8 else rng.randrange(i))
